@@ -6,6 +6,8 @@ from ..areas import store as st
 from ..extract import store as xstore
 
 MUT = {"plain": ("put", "pin", "rem", "trim"), "io": ("add", "put", "pin", "pop", "rem", "trim"), "ioset": ("add", "put", "pin", "pop", "rem", "remv", "trim")}
+MUT["iox"], MUT["iosetx"] = MUT["io"], MUT["ioset"]
+BASE = {"iox": "io", "iosetx": "ioset"}
 
 
 def legal(kind, k):
@@ -26,6 +28,7 @@ def reference(kind, ops, keys):
     d = {}
     ANY = reference.ANY
     out = []
+    kind = BASE.get(kind, kind)
     for op in ops:
         name = op[0]
         k = op[1] if len(op) > 1 else None
@@ -55,6 +58,8 @@ def reference(kind, ops, keys):
                 d.clear()
         elif name == "cnt" and len(op) == 1:
             exp = len(d) if kind == "plain" else sum(len(v) for v in d.values())
+        elif name in ("badadd", "badput", "badpin") and legal(kind, k):
+            exp = ("raise", "TypeError")   # a value that is not str/bytes is refused by lmdb: the call must have no effect
         elif not legal(kind, k):
             exp = ANY                      # outside the key space of the store: only "nothing else changes" is checked
         elif kind == "plain":
@@ -124,7 +129,9 @@ class C24(core.Check):
     level_note = ""
     quick_n = 500
     thorough_n = 9000
-    rule = ("case = (kind in plain|io|ioset, op list <= 30 over an adversarial key set of <= 4 keys (prefixes of each other, keys ending in or containing '.', "
+    rule = ("keys and values are handed over in every accepted form (bytes / str / memoryview / tuple of parts), returned lists are mutated by the caller, writes with a non-bytes value at any "
+            "batch position are interleaved, kinds iox|iosetx use ionsep='|' (oracle only), a sentinel sub-db in the same environment must stay untouched; "
+            "case = (kind in plain|io|ioset, op list <= 30 over an adversarial key set of <= 4 keys (prefixes of each other, keys ending in or containing '.', "
             "keys that look like a suffixed key k.<32 hex>, the empty key, neighbours '-' '/' '0' of the separator) and 8 values with duplicates and the empty value); "
             "plus getItemIter/getFullItemIter/trim with a top and cntAll; after every op get() of every key of the case is observed, at the end the raw sub-db. non-trivial = at least 2 keys and 3 mutating ops; distinct by request line")
     trusted_base = ["lmdb modelled as a sorted association list with set_range / iternext / delete / put(overwrite) cursor semantics (exercised by the correspondence on real lmdb)",
@@ -149,6 +156,11 @@ class C24(core.Check):
             ("ioset", [("put", k, [b"v0", b"v1", b"v2"]), ("add", k2, b"w0"), ("add", k, b"v1"), ("get", k), ("last", k), ("rem", k), ("items",)]),
             ("io", [("add", k, b"a"), ("add", k, b"b"), ("pop", k), ("add", k2, b"w"), ("get", k), ("first", k), ("pop", k)]),
             ("io", [("add", b"a", b"1"), ("add", b"a.b", b"2"), ("last", b"a")]),
+            # K3: pin with a non-bytes element destroys the old values and raises
+            ("io", [("put", b"k", [b"a", b"b"]), ("badpin", b"k", [b"c", 7]), ("get", b"k")]),
+            ("ioset", [("put", b"k", [b"a", b"b"]), ("badpin", b"k", [7]), ("get", b"k")]),
+            # K4: custom ordinal separator, getFirst / getLast / pop
+            ("iox", [("add", b"k", b"a"), ("add", b"k", b"b"), ("first", b"k"), ("last", b"k"), ("pop", b"k"), ("get", b"k")]),
         ]
 
     def corpus(self):
@@ -173,6 +185,14 @@ class C24(core.Check):
             ("io", [("add", b"a", b"1"), ("add", b"a", b"2"), ("add", b"a-b", b"3"), ("cnt",), ("itemstop", b"a"), ("itemstop", b"a."), ("fullitems", b"a."), ("fullitems", b""),
                     ("itemstop", b""), ("trim", b""), ("cnt",), ("get", b"a"), ("trim", b"")]),
             ("ioset", [("put", b"k", [b"x", b"y"]), ("add", b"kk", b"z"), ("cnt",), ("itemstop", b"k"), ("fullitems", b"kk"), ("trim", b""), ("items",)]),
+            # rejected writes (a value that is not str/bytes, at every position of a batch) have no effect; many key/value forms
+            ("io", [("put", b"k", [b"a", b"b"]), ("badadd", b"k"), ("badput", b"k", [7, b"c"]), ("badput", b"k", [b"c", 7]), ("badput", b"k", [b"c", 7, b"d"]),
+                    ("get", b"k"), ("add", b"a.b", b"x"), ("add", b"a.b", b"y"), ("get", b"a.b"), ("iter", b"a.b"), ("cnt", b"a.b"), ("pop", b"a.b")]),
+            ("plain", [("put", b"k", b"v"), ("badput", b"k"), ("badpin", b"k"), ("get", b"k"), ("badput", b"n"), ("get", b"n")]),
+            ("iosetx", [("put", b"k", [b"a", b"b", b"a"]), ("add", b"k." + st.hexw(0), b"w"), ("add", b"k", b"c"), ("get", b"k"), ("remv", b"k", b"a"),
+                        ("cnt", b"k"), ("pin", b"k", [b"z"]), ("rem", b"k." + st.hexw(0)), ("items",)]),
+            # 300 values at one key: the ordinal carries twice (0x100)
+            ("io", [("put", k, [b"w%d" % (60 * i + j) for j in range(60)]) for i in range(5)] + [("cnt", k), ("last", k), ("pop", k), ("add", k, b"z"), ("last", k), ("cnt",)]),
             # outside the key space: error branches of the model (correspondence only)
             ("plain", [("put", b"", b"v"), ("get", b""), ("rem", b""), ("pin", b"x" * 512, b"v"), ("get", b"x" * 512), ("rem", b"x" * 512), ("put", b"x" * 511, b"v"), ("get", b"x" * 511)]),
             ("io", [("add", b"x" * 479, b"v"), ("add", b"x" * 478, b"v"), ("get", b"x" * 478), ("get", b"x" * 479), ("put", b"x" * 479, [b"a"]), ("pin", b"x" * 479, [b"a"])]),
@@ -230,13 +250,45 @@ class C24(core.Check):
         ops += [("get", keys[0]), ("last", keys[0]), ("cnt", keys[0]), ("pop", keys[0])]
         return (kind, ops)
 
+    def _custom_sep(self, rng):
+        """IoSuber / IoSetSuber built with ionsep='|': every method must hand the separator down.  getFirst / getLast / pop
+        are left out (known finding C24-K4: they do not); keys with '.' (now harmless) and without '|'."""
+        kind = rng.choice(["iox", "iosetx"])
+        keys = rng.sample([b"k", b"k.", b"k." + st.hexw(0), b"a.b", b"", b"k-", b"0"], rng.choice([1, 2, 3]))
+        vals = st.VALS24[:rng.choice([2, 3, 8])]
+        ops = []
+        for _ in range(rng.choice([3, 6, 10, 20])):
+            k = rng.choice(keys)
+            names = ["add"] * 5 + ["put", "put", "pin", "get", "iter", "rem", "cnt", "items"] + (["remv", "remv"] if kind == "iosetx" else [])
+            name = rng.choice(names)
+            if name in ("add", "remv"):
+                ops.append((name, k, rng.choice(vals)))
+            elif name in ("put", "pin"):
+                ops.append((name, k, [rng.choice(vals) for _ in range(rng.choice([0, 1, 2, 3]))]))
+            elif name == "items":
+                ops.append((name,))
+            else:
+                ops.append((name, k))
+        return (kind, ops)
+
     def _generate(self, rng, n, tier):
         for _ in range(n):
             if rng.random() < 0.08:
                 yield self._long(rng)
                 continue
             kind = rng.choice(["io", "io", "ioset", "ioset", "plain"])
+            if rng.random() < 0.08:
+                yield self._custom_sep(rng)
+                continue
             keys = [k for k in st.adversarial_keys(rng, rng.choice([1, 2, 3, 3, 4, 4])) if legal(kind, k)] or [b"k"]
+            if rng.random() < 0.05:      # exactly at / one past the key size limit of the store (illegal ones: only "nothing else changes")
+                lim = st.MAXKEY if kind == "plain" else st.MAXKEY - 1 - st.W
+                keys.append(rng.choice([b"L", b"k.", b"\xc3\xa9"]) * lim)
+                keys[-1] = keys[-1][:lim] if rng.random() < 0.7 else keys[-1][:lim + 1]
+                try:
+                    keys[-1].decode()
+                except UnicodeDecodeError:
+                    keys[-1] = b"L" * len(keys[-1])
             vals = st.VALS24[:rng.choice([2, 3, 8])]
             nops = rng.choice([3, 6, 10, 15, 20, 30])
             ops = []
@@ -250,6 +302,17 @@ class C24(core.Check):
                     if kind != "plain" and nm != "trim":
                         top = rng.choice([b"", k, k + b".", k[:1]])
                     ops.append((nm, top))
+                    continue
+                if r > 0.97:          # a value (or one element of a batch, at any position) that is not str/bytes
+                    if not legal(kind, k):     # which refusal wins (key or value) depends on lmdb's argument order: not modelled
+                        k = next((kk for kk in keys if legal(kind, kk)), b"k")
+                    if kind == "plain":
+                        ops.append((rng.choice(["badput", "badpin"]), k))
+                    else:
+                        batch = [rng.choice(vals) for _ in range(rng.choice([0, 1, 2, 3]))]
+                        batch.insert(rng.randrange(len(batch) + 1), 7)
+                        nm = rng.choice(["badadd", "badput", "badput", "badpin"])
+                        ops.append((nm, k) if nm == "badadd" else (nm, k, batch))
                     continue
                 if kind == "plain":
                     name = rng.choice(["put", "put", "pin", "pin", "get", "rem", "rem", "cnt", "items"])
@@ -274,7 +337,13 @@ class C24(core.Check):
     # ---- both sides
     def request(self, case):
         kind, ops = case
-        return (kind, ("keys",) + st.c24_keys(ops), ("ops",) + tuple(tuple(o) for o in ops))
+        rops = tuple(("badput", o[1]) if o[0] in ("badadd", "badput") else ("badpin", o[1]) if o[0] == "badpin" else tuple(o) for o in ops)
+        if kind in BASE:       # custom ordinal separator: not in the Lean model, these cases are carried by the oracle alone
+            return ("oracleonly", kind, ("ops",) + tuple(tuple(x if not isinstance(x, list) else tuple(x) for x in o) for o in ops))
+        return (kind, ("keys",) + st.c24_keys(ops), ("ops",) + rops)
+
+    def compare_view(self, case, obs):
+        return "oracle-only" if case[0] in BASE else sx.dumps(obs)
 
     def run_impl(self, case):
         return st.c24_run(case)
@@ -285,6 +354,9 @@ class C24(core.Check):
         steps, dump = obs
         ANY = reference.ANY
         bad = []
+        if len(steps) != len(ops):
+            bad.append("neighbouring-subdb-changed")
+            steps = steps[:len(ops)]
         for (exp, snap), (res, got), op in zip(reference(kind, ops, keys), steps, ops):
             if exp is not ANY:
                 if isinstance(exp, tuple) and exp and exp[0] == "items":
@@ -304,10 +376,18 @@ class C24(core.Check):
 
     def known(self, case, obs, clauses):
         kind, ops = case
+        if kind in BASE:
+            # K4: getFirst / getLast / pop do not pass the custom ordinal separator down
+            return "C24-K4" if any(o[0] in ("first", "last", "pop") for o in ops) else None
         if kind not in ("io", "ioset"):
             return None
-        if any(isinstance(sn, tuple) and sn[:1] == ("raise",) for step in obs[0] for sn in (step[0],) + tuple(step[1])):
-            return None          # neither finding ever makes a method raise
+        if any(o[0] == "badpin" for o in ops) and not xstore.PIN_ATOMIC.get("v", False):
+            # K3: pin with a non-bytes value removes the old values in a transaction of its own, then raises
+            hit = [c for c in clauses if c.startswith("badpin")] or any(c in clauses for c in ("get-differs-from-dict", "other-key-changed"))
+            if hit and not st.f39_pairs(st.c24_keys(ops), st.c24_nvals(ops)):
+                return "C24-K3"
+        if any(isinstance(sn, tuple) and sn[:1] == ("raise",) and sn[1] not in ("TypeError", "BadValsizeError", "KeyError") for step in obs[0] for sn in (step[0],) + tuple(step[1])):
+            return None          # no finding ever makes a method raise (TypeError / BadValsizeError / KeyError are lmdb refusing a value or a key it cannot store)
         keys = st.c24_keys(ops)
         if [c for c in clauses if c != "last-result-differs-from-dict"]:
             # K1: a foreign key's entries can sort between ordinal 0 and a reachable ordinal of k
@@ -369,12 +449,12 @@ C24.level_text = (
     "about = the complement of the known-finding triggers K1/K2): io_refines_dict_partial, ioset_refines_dict_partial (add put pin get iter getFirst getLast pop rem rem(val) cnt), "
     "other_key_unchanged_partial, getLast_partial, contiguous_under_exact_guard, scan_sees_all_under_guard; the guard is NECESSARY: exact_guard_is_necessary (a violated pair yields a 3-op history on which "
     "store and dictionary differ, within N+2 ordinals), exact_guard_is_necessary_last, scan_short_without_contiguity; io_refines_dict_sepfree is the corollary for the simple guard. "
-    "With NO guard: reachable_inv, reachable_no_valueError, io_items_cntAll_spec (getItemIter()/cntAll of the whole sub-db), io_trim_all_empties. Witnesses by decide: refines_dict_fails_without_guard (F39), "
+    "rejected_write_is_identity (non-bytes value at any batch position; io-kind pin only where the probed flag Gen.pinAtomic holds - known finding C24-K3 otherwise). With NO guard: reachable_inv, reachable_no_valueError, io_items_cntAll_spec (getItemIter()/cntAll of the whole sub-db), io_trim_all_empties. Witnesses by decide: refines_dict_fails_without_guard (F39), "
     "getLast_fails_without_guard, f39_keys_not_exact. Correspondence only: getItemIter(top)/getFullItemIter(top)/trim(top) of the io kinds with a non-empty top (they select by the suffixed key, not a "
     "dictionary notion; modelled). Tie: regenerated constants + suffix/unsuffix probe table (gen_* theorems) and a differential run on real lmdb that also compares the raw sub-db.")
 C24.level_note = ("Trusted: Lean kernel + propext/Classical.choice/Quot.sound; the sorted-list model of lmdb; the translator; that the sampled correspondence is representative. "
                   "Decided OUTSIDE the quantifier: keys lmdb cannot store (empty, or longer than max_key_size 511; 478 for the io kinds) - the plain Suber maps lmdb's refusal to KeyError, the io kinds let the raw "
                   "lmdb.BadValsizeError through; no value is lost or confused, the dictionary model is claimed over lmdb-legal keys only (modelled, exercised by 2 corpus cases, no oracle clause). "
-                  "getFirst/getLast/pop ignoring a custom ionsep is outside the quantifier (default separator only).")
+                  "Custom ionsep is exercised by oracle-only cases (kinds iox/iosetx, not in the Lean model); getFirst/getLast/pop ignoring it is known finding C24-K4.")
 
 CHECK = C24()
